@@ -195,10 +195,32 @@ class Tr:
         """returns Gallina text of the function body"""
         lets = []
         ret = None
-        for s in stmts:
+        for idx, s in enumerate(stmts):
             k = s["kind"]
             if ret is not None:
                 raise Unsupported("statement after return at " + where(s))
+            if k == "IfStmt" and not byref:
+                # early return: `if (c) return e;` (or `{ return e; }`) without else becomes if c then e else <rest>
+                parts = [c for c in s.get("inner", []) if c.get("kind") != "FullComment"]
+                if s.get("hasElse") or s.get("hasInit") or s.get("hasVar") or len(parts) != 2:
+                    raise Unsupported("if statement with else / init at " + where(s))
+                c, sc = self.expr(parts[0])
+                if sc != 'b':
+                    raise Unsupported("condition sort at " + where(s))
+                th = parts[1]
+                if th["kind"] == "CompoundStmt":
+                    items = [c2 for c2 in th.get("inner", []) if c2.get("kind") != "FullComment"]
+                    if len(items) != 1:
+                        raise Unsupported("if body at " + where(s))
+                    th = items[0]
+                if th["kind"] != "ReturnStmt":
+                    raise Unsupported("if body at " + where(s))
+                g, so = self.expr(th["inner"][0])
+                if ret_sort and so != ret_sort:
+                    raise Unsupported("return sort at " + where(s))
+                rest = self.body(stmts[idx + 1:], byref, ret_sort)
+                ret = "if %s then %s else (\n%s)" % (c, g, rest)
+                break
             if k == "DeclStmt":
                 for v in s["inner"]:
                     if v["kind"] != "VarDecl" or "inner" not in v:
